@@ -132,15 +132,29 @@ def _kind_helper_map(u, fn, cond):
     if len(h.params) != 1 or not calls[0]['args'] or not any(x.get('k') == 'mem' and x.get('f') == 'type' for x in walk(calls[0]['args'][0])):
         return None
     from .shape import Interp, Heap, ShapeViolation
+    # the argument: X->type, or X->type & <constant mask>
+    arg = strip_casts(calls[0]['args'][0])
+    mask = -1
+    if arg.get('k') == 'bin' and arg['op'] == '&':
+        for (x, y) in ((arg['l'], arg['r']), (arg['r'], arg['l'])):
+            if strip_casts(x).get('k') == 'mem' and strip_casts(x)['f'] == 'type' and const_val(y) is not None:
+                mask = const_val(y)
+        if mask == -1:
+            return None
+    elif not (arg.get('k') == 'mem' and arg['f'] == 'type'):
+        return None
+
+    def hv(t):
+        return Interp({'unit': u}, Heap()).run(u, h, [t & mask])
     out = {}
     try:
         for t in (1, 2, 4, 8, 16, 32, 64, 128):
-            kv = Interp({'unit': u}, Heap()).run(u, h, [t])
-            if not isinstance(kv, int) or any(Interp({'unit': u}, Heap()).run(u, h, [t | fl]) != kv for fl in (256, 512, 768)):
+            kv = hv(t)
+            if not isinstance(kv, int) or any(hv(t | fl) != kv for fl in (256, 512, 768)):
                 return None
             out[t] = kv
-        v0 = Interp({'unit': u}, Heap()).run(u, h, [0])
-        if any(Interp({'unit': u}, Heap()).run(u, h, [bad]) != v0 for bad in (3, 0x60, 0xFF, 256)):
+        v0 = hv(0)
+        if any(hv(bad) != v0 for bad in (3, 0x60, 0xFF)) or (mask == -1 and hv(256) != v0):
             return None
     except (AnalysisBroken, ShapeViolation):
         return None
